@@ -35,6 +35,10 @@ PINS = {
     "C06_listeners": "forall k ops, exists z, lrun k lcreated ops = LOk z",
     "C06_reply_matching": "forall asserts ver ops K s, rrun asserts {| r_v := view0 ver; r_up := []; r_down := [] |} ops "
                           "<> RUnmatched K s",
+    "C06_reply_contract_model": "Model.step s (Message c x) fresh b = Done (s', o) -> (exists m1, Model.handle {| ms := s; "
+                                "mw := work0; mo := [] |} c x fresh b = Done m1) -> rkeys o = match rq x with Some key => "
+                                "[(c, key)] | None => [] end",
+    "C06_reply_contract_other_events": "(forall c x, e <> Message c x) -> Model.step s e fresh b = Done (s', o) -> rkeys o = []",
     "C06_calls": "forall sc ops, exists z, wrun sc wcreated ops = WOk z",
     "C06_channel_slice_is_recv": "forall fl k v x m, crel k v x -> about k v m -> match crecv fl x m, "
                                  "recv_with (fl_close_asserts fl) true v m with",
@@ -202,7 +206,7 @@ def search(o, per_shard, shards, ops, reps, seed):
         d = workdir(f"s{i}")
         # half of the shards never drop a running claim future (that stream must be clean once
         # the refused-claim repair is in), the other half does everything
-        opts = "--trace" + (" --no-cancel-claims" if i % 2 == 1 else "")
+        opts = "--trace --trace-max 150" + (" --no-cancel-claims" if i % 2 == 1 else "")
         cmds.append(f"VERIF_SEED={seed * 1000 + i} {sched} gen {d} {per_shard} {ops} {opts}")
         dirs.append(d)
         kinds.append("random")
@@ -210,7 +214,7 @@ def search(o, per_shard, shards, ops, reps, seed):
     for i in range(nf):
         d = workdir(f"f{i}")
         cmds.append(f"VERIF_SEED={seed * 1000 + 500 + i} {sched} gen {d} {per_shard} {max(20, ops // 2)} "
-                    f"--trace --no-shrink --no-cancel-claims --faults {10 + 10 * (i % 3)}")
+                    f"--trace --trace-max 400 --no-shrink --no-cancel-claims --faults {10 + 10 * (i % 3)}")
         dirs.append(d)
         kinds.append("faults")
     res = core.parallel(cmds, timeout=3000)
@@ -239,7 +243,9 @@ def search(o, per_shard, shards, ops, reps, seed):
     # correspondence: sessions through the extracted acceptance automaton
     tdirs = [d for d, k in zip(dirs, kinds) if k != "directed" and os.path.exists(os.path.join(d, "trace.txt"))]
     drv = os.path.join(core.BUILD, "clientview_driver")
-    res = core.parallel([f"{drv} {d}/trace.txt {d}/model.txt" for d in tdirs], timeout=3000)
+    disturbed = {d for d, k in zip(dirs, kinds) if k == "faults"}
+    res = core.parallel([f"{drv} {d}/trace.txt {d}/model.txt 20" + (" disturbed" if d in disturbed else "") for d in tdirs],
+                        timeout=3000)
     agree = {"AGREE": 0, "DISAGREE": 0, "SKIP": 0}
     verdicts = {}
     recv = 0
@@ -324,8 +330,8 @@ def run(tier, seed):
         "acceptance automaton restricted to one cookie; C06_channel_ends is REFUTED for the source shape at the pinned "
         "commit (witness reproduced on the real code) and C06_channel_ends_this_tree states what holds for the shape read "
         "from the tree; cancelled claims and double binds stay refuted (known findings). The broker side of the composed "
-        "systems is Model.v's channel functions / a mirror of its listener and service arms / the reply contract, not the "
-        "whole Model.step. Lost wake-ups, deadlock of the real tasks on "
+        "systems is Model.v's channel functions / a mirror of its listener and service arms / the reply contract (which "
+        "Model.step is proved to keep: C06_reply_contract_model), not the whole Model.step. Lost wake-ups, deadlock of the real tasks on "
         "bounded FIFOs, livelock and fairness are runtime behaviour: explored by the seeded scheduler over random "
         "programs, not proved")
     per_shard, shards, ops, reps = SIZES[tier]
